@@ -107,6 +107,8 @@ var programs = []prog{
 	// an injected Lookup failure of the hook / delete / paused-retry consumers is a transient MISS (ErrRecordNotFound from a
 	// replica that does not have the run yet): like any lookup error it must be retried, never acknowledged
 	mkProg("hooks-lookup-miss", "S:1:R,1,2:2:0:0:0 S:2:R,1,3:3:0:0:0 H:5:0 D:0 O:nf=1"),
+	// the delete consumer with a custom delete function that fails twice before it succeeds: the request is handled again
+	mkProg("delete-fails-twice", "S:1:R,1,2:2:0:0:0 S:2:R,1,3:3:0:0:0 H:5:0 D:4"),
 	mkProg("lagged", "S:1:R,1,2:2:0:0:30 S:2:R,1,3:3:0:0:0 H:5:0"),
 	mkProg("lagged2", "S:1:R,1,2:2:0:0:30 S:2:R,1,3:3:0:0:40 O:inst=2"),
 	// connectors (connector.go): one consumer failing its first invocation per event; two shards + a second connector with three
@@ -361,6 +363,11 @@ func genConnectors(p *params, emit func(string, bool)) {
 func genFaults(p *params, emit func(string, bool), frac float64) {
 	r := p.rng
 	for _, pr := range programs {
+		if pr.name == "delete-fails-twice" && os.Getenv("VERIF_PROP") != "C07" {
+			// its base history issues DeleteData at fixed positions; a fault that delays the runs makes those requests come
+			// too early (rejected), so the history is not comparable with its failure-free twin (C01's final-state clause)
+			continue
+		}
 		base := []string{"tr:1:0:4", "tr:2:0:7"}
 		switch pr.name {
 		case "callback":
@@ -381,6 +388,9 @@ func genFaults(p *params, emit func(string, bool), frac float64) {
 		case "backoff":
 			base = append(base, pr.rounds(3)...)
 			base = append(base, adv(50))
+		case "delete-fails-twice":
+			base = append(base, pr.rounds(4)...)
+			base = append(base, "ct:1:3", "ct:2:3")
 		case "lagged", "lagged2":
 			base = append(base, pr.rounds(3)...)
 			base = append(base, adv(10))
